@@ -56,12 +56,9 @@ def run(tier, seed, replay=None):
                 if r["errtype"] != "*parser.Error":
                     report(dict(base, kind="the error is not a *parser.Error: " + r["errtype"]))
                 else:
-                    text = raw.decode("utf-8", "replace")          # the scanner works on runes
-                    lines = text.split("\n")
-                    ln, cl = r["line"], r["col"]
-                    if not (1 <= ln <= len(lines)) or not (1 <= cl <= len(lines[ln - 1]) + 1):
-                        report(dict(base, kind="error position out of range", line=ln, column=cl, message=r["msg"],
-                                    lines_in_input=len(lines), length_of_that_line=len(lines[ln - 1]) if 1 <= ln <= len(lines) else None))
+                    if not r.get("pos_ok"):
+                        report(dict(base, kind="error position out of range", line=r["line"], column=r["col"], message=r["msg"],
+                                    lines_in_input=r.get("nlines"), length_of_that_line_in_runes=r.get("line_len")))
             elif o == "ok" and c["kind"] != "deep" and not r["tree"] and raw.strip(b" \t\r\n;") and not raw.lstrip().startswith((b"#", b"//", b"/*")):
                 pass   # a nil tree with a nil error for sources made of terminators / comments only is fine
         # scanner model against the real scanner
